@@ -327,7 +327,7 @@ def main():
                   "htslib/pysam BGZF reader (tell/seek/readline), zlib/gzip.open: foreign code, assumed to implement the interface (strictly increasing offsets, seek returns the record); checked by this correspondence only"]
     ck.assumptions = ["pysam.libcbgzf.BGZFile and gzip.open return the same bytes as the plain file; tell() before a record is strictly increasing; seek(tell()) returns that record"]
     ck.canon = ["index / .gsi offsets resolved to record ordinals per file before comparing", "stat report compared without blank lines", "order_gfa outputs keyed by chromosome (the CSV file name differs for a .gfa.gz input: contents compared)"]
-    ck.lean_build(["Gaftools.Props.C17", "Gaftools.Props.C17b", "Gaftools.Props.Cli", "Gaftools.Props.TieA7"])
+    ck.lean_build(["Gaftools.Props.C17", "Gaftools.Props.C17b", "Gaftools.Props.Cli", "Gaftools.Props.TieA7", "Gaftools.Props.TieA26"])
     ck.audit("C17.lean")
     rng = ck.rng
     quick = ck.tier == "quick"
